@@ -391,9 +391,12 @@ def barrier_strategy(safe):
     def s(tier):
         start = st.just(0) if safe else st.sampled_from([0, 0, 1, 2, 3])
         work = st.just(0) if safe else st.sampled_from([0, 0, 1, 2])
+        # controller actions: reset() / abort() at a tick (abort is followed by a reset one tick later: documented recovery)
+        ctl = st.lists(st.tuples(st.sampled_from(["reset", "reset", "abort"]), st.integers(0, 6)), max_size=0 if safe else 2)
         return st.fixed_dictionaries({
             "parties": st.integers(1, 4), "groups": st.integers(1, 2), "gens": st.integers(1, 3),
             "starts": st.lists(start, min_size=8, max_size=8), "work": st.lists(work, min_size=8, max_size=8),
+            "ctl": ctl, "missing": st.sampled_from([0, 0, 1]),
         })
     return s
 
@@ -406,23 +409,48 @@ def barrier_execute(obl):
         parties = 1 + (int(case.get("parties", 1)) - 1) % 4
         groups = 1 + (int(case.get("groups", 1)) - 1) % 2
         gens = 1 + (int(case.get("gens", 1)) - 1) % 3
-        n = parties * groups                      # every worker waits `gens` times => arrivals are a multiple of parties
+        ctl = []
+        for c in (case.get("ctl") or [])[:3]:
+            try:
+                ctl.append((c[0] if c[0] in ("reset", "abort") else "reset", int(c[1]) % 8))
+            except (TypeError, ValueError, IndexError):
+                continue
+        # every worker waits `gens` times; `missing` leaves a round short of one party so that somebody is parked when the
+        # controller abandons the round
+        n = max(1, parties * groups - (int(case.get("missing", 0) or 0) % 2 if ctl else 0))
         starts = (list(case.get("starts") or []) + [0] * 8)[:8]
         work = (list(case.get("work") or []) + [0] * 8)[:8]
         bar = Barrier("bar", parties)
-        arrivals = []                              # trace of arrivals: dict(w, t, ret_t)
-        state = {"max_waiting": 0}
+        arrivals = []              # dict(w, t, ret, refused, err)
+        log = []                   # ("arr", a) | ("reset", t) | ("abort", t) in trace order
 
         def op_fn(run, wk, j, op):
-            a = {"w": wk.i, "t": run.t, "ret": None, "idx": len(arrivals)}
+            if isinstance(op, dict):                  # controller
+                log.append((op["ctl"], run.t))
+                getattr(bar, op["ctl"])()
+                r.labels.append(op["ctl"])
+                yield 0.0
+                return op["ctl"]
+            a = {"w": wk.i, "t": run.t, "ret": None, "refused": bar.broken, "err": False}
             arrivals.append(a)
-            res = yield from bar.wait()
+            log.append(("arr", a))
+            try:
+                res = yield from bar.wait()
+            except RuntimeError:                      # documented for a broken barrier
+                a["err"] = True
+                res = None
             a["ret"] = run.t
-            a["ret_seq"] = run.ev("ret", w=wk.i)["seq"]
+            if a["refused"] and not a["err"]:
+                bad("wait-on-aborted-barrier-did-not-raise", f"w{wk.i} at {ms(run.t)}")
             yield ticks(int(op) % 4)
             return res
 
         wl = [{"start": int(starts[i]) % 4, "ops": [int(work[(i + g) % 8]) % 4 for g in range(gens)]} for i in range(n)]
+        for kind, t in ctl:
+            ops = [{"ctl": kind}]
+            wl.append({"start": t, "ops": ops})
+            if kind == "abort":
+                wl.append({"start": t + 1, "ops": [{"ctl": "reset"}]})
 
         def after(run):
             if bar.waiting >= parties:
@@ -434,11 +462,26 @@ def barrier_execute(obl):
         class _J:
             pending = [a for a in arrivals if a["ret"] is None]
         ok = finish_common(r, bad, run, _J)
-        # generation k = arrivals [k*parties, (k+1)*parties): released at the instant of its last arrival
+        # rounds: `parties` consecutive arrivals that are not separated by a reset()/abort(); a round cut short by a
+        # reset/abort is abandoned (its parked parties may leave with or without RuntimeError - not judged);
+        # arrivals refused by an aborted barrier belong to no round
+        rounds, cur = [], []
+        for kind, x in log:
+            if kind == "arr":
+                if x["refused"]:
+                    continue
+                cur.append(x)
+                if len(cur) == parties:
+                    rounds.append((cur, True))
+                    cur = []
+            else:
+                for a in cur:
+                    a["abandoned"] = x
+                cur = []
+        if cur:
+            rounds.append((cur, False))
         crossed = False
-        for k in range(0, len(arrivals), parties):
-            gen = arrivals[k:k + parties]
-            complete = len(gen) == parties
+        for k, (gen, complete) in enumerate(rounds):
             last_t = gen[-1]["t"]
             if complete and len({a["t"] for a in gen}) > 1:
                 crossed = True
@@ -447,18 +490,30 @@ def barrier_execute(obl):
                     continue
                 if not complete or a["ret"] < last_t:
                     bad("released-before-all-parties-arrived", f"w{a['w']} arrived {ms(a['t'])} left {ms(a['ret'])}, "
-                        f"generation complete={complete} last arrival {ms(last_t)}")
+                        f"round complete={complete} ({len(gen)} of {parties} arrivals since the last reset/abort), last arrival {ms(last_t)}")
                 elif a["ret"] > last_t:
                     bad("released-late", f"w{a['w']} left {ms(a['ret'])} but the last party arrived {ms(last_t)}")
+                elif a["err"]:
+                    # an abort() in the very instant the round completed, before the released party resumed: it leaves
+                    # with RuntimeError; it *is* released, which is all the statement asks - labelled only
+                    r.labels.append("released-party-saw-abort")
             if ok and complete and any(a["ret"] is None for a in gen):
-                bad("waiter-never-served", f"generation {k // parties} complete at {ms(last_t)} but "
+                bad("waiter-never-served", f"round {k} complete at {ms(last_t)} but "
                     f"{[a['w'] for a in gen if a['ret'] is None]} never left the barrier")
-        # (with several groups a worker of an incomplete last generation may legitimately stay parked)
+        for a in arrivals:
+            if "abandoned" in a and a["ret"] is not None and a["ret"] < a["abandoned"]:
+                bad("released-before-all-parties-arrived", f"w{a['w']} arrived {ms(a['t'])} left {ms(a['ret'])} before the round "
+                    f"was abandoned at {ms(a['abandoned'])}")
+            if ok and "abandoned" in a and a["ret"] is None:
+                bad("waiter-never-served", f"w{a['w']} was parked when the round was abandoned at {ms(a['abandoned'])} and never woke up")
+        # (a worker of an incomplete last round may legitimately stay parked)
         if ok and run.all_done and bar.waiting != 0:
             bad("leak-at-end", f"waiting={bar.waiting} although every worker left the barrier")
-        r.nontrivial = parties > 1 and ok and run.all_done
+        r.nontrivial = parties > 1 and ok and any(c for _, c in rounds)
         r.labels.append("arrivals-at-different-instants" if crossed else "same-instant-generations")
         r.labels.append(f"parties={parties}")
+        if any("abandoned" in a for a in arrivals):
+            r.labels.append("round-abandoned-with-parked-parties")
         return r
     return execute
 
@@ -926,10 +981,11 @@ def limiter_execute(case):
         except (TypeError, ValueError, IndexError):
             continue
         w = 1 + x % limit if model == "weighted" else 1
+        wa = w if model == "weighted" else 1 + x % 3      # Fixed/Dynamic document the weight argument as ignored (always one slot)
         used = sum(held)
         fits = used + w <= limit
         if kind == "acq":
-            ok = c.acquire(w) if model == "weighted" else c.acquire()
+            ok = c.acquire(wa)
             if ok and not fits:
                 bad(f"over-limit/{model}", f"acquire({w}) admitted with {used} in use, limit {limit}")
             if not ok and fits:
@@ -940,7 +996,7 @@ def limiter_execute(case):
                 full = True
         elif kind == "rel" and held:
             w = held.pop(x % len(held))
-            c.release(w) if model == "weighted" else c.release()
+            c.release(w if model == "weighted" else 1 + x % 3)
         elif kind == "set" and model == "dynamic":
             c.set_limit(x)
             limit = max(lo, x)
@@ -950,7 +1006,7 @@ def limiter_execute(case):
                 bad("limit-not-clamped/dynamic", f"set_limit({x}) -> {c.limit}, bounds [{lo},{hi}]")
                 limit = c.limit
         elif kind == "has":
-            hc = c.has_capacity(w) if model == "weighted" else c.has_capacity()
+            hc = c.has_capacity(wa)
             if hc != fits:
                 bad(f"has-capacity-wrong/{model}", f"has_capacity({w})={hc} with {used} in use, limit {limit}")
         used = sum(held)
